@@ -855,6 +855,10 @@ impl CommandExecutor for DrawExecutor {
                 if parameters.len() != 2 {
                     return Err(anyhow::anyhow!("ColorSet command requires 2 arguments"));
                 }
+                if !(0..=15).contains(&parameters[1]) {
+                    // the canvas stores pen numbers: one outside the 16 pens cannot be turned into a pixel later
+                    return Err(anyhow::anyhow!("ColorSet pen number out of range: {}", parameters[1]));
+                }
                 match parameters[0] {
                     0 => self.polymarker_color = parameters[1] as u8,
                     1 => self.line_color = parameters[1] as u8,
